@@ -498,55 +498,33 @@ def _skyline_sweep(ctx: Ctx, modname: str, fname: str, per_bin: bool) \
     (none starts in (c, x]) and the maximal one reaches beyond x, hence the
     skyline is use_top on [c, e) and the segment adds (e - c) * use_top
     [F4]; the sweep continues at e > c [F5] from 0 until the bin width [F6].
+
+    All pieces are compared as values (term normaliser + case analysis):
+    local names, operand orders, `min()` versus `if`, `continue` versus
+    nesting and hoisted temporaries do not matter.
     """
-    from sa.casesplit import Splitter, describe
+    from sa.casesplit import Splitter, describe, equivalent
     from sa.kern import make_evaluator
+    from sa.srcmodel import inline_locals
     from sa.symterm import Env, ite
     repo = ctx.repo
     fi = repo.func(modname, fname)
     yp, wp, hp = fi.params[:3]
     body = func_body(fi)
     problems: list[str] = []
+    construct = f"skyline sweep of {fname}"
 
     def src(n: ast.AST) -> str:
         return ast.unparse(n).replace(" ", "")
-    scope: list[ast.stmt] = body
-    bin_src = None
-    if per_bin:
-        bl = next((s for s in body if isinstance(s, ast.For)), None)
-        if bl is None or not isinstance(bl.target, ast.Name):
-            problems.append("no loop over the bins")
-        else:
-            scope = bl.body
-            bin_src = bl.target.id
-            if src(bl.iter) not in ("range(1,bins+1)", "range(1,1+bins)"):
-                problems.append("the bins are not enumerated as 1..bins")
-    sweep = next((s for s in scope if isinstance(s, ast.While)), None)
-    if sweep is None:
-        ctx.ob("D2.6", fi, fi.node, False, "no sweep loop",
-               construct=f"skyline sweep of {fname}")
-        return
-    # F6: while c < W, c starts at 0
-    t = sweep.test
-    cn = t.left.id if isinstance(t, ast.Compare) and isinstance(
-        t.left, ast.Name) else None
-    if cn is None or src(t) != f"{cn}<{wp}":
-        problems.append("the sweep does not run while position < bin width")
-    pre = scope[:scope.index(sweep)]
-    c0 = [s for s in pre if isinstance(s, (ast.Assign, ast.AnnAssign))
-          and src(s.targets[0] if isinstance(s, ast.Assign)
-                  else s.target) == cn]
-    if not c0 or repo.const(fi.module, c0[-1].value) != 0:
-        problems.append("the sweep does not start at x = 0")
-    scan = next((s for s in sweep.body if isinstance(s, ast.For)), None)
-    if scan is None or src(scan.iter) not in (f"range(len({yp}))",
-                                               "range(len_y)"):
-        problems.append("the scan does not visit every row of the packing")
-    if problems or scan is None or cn is None:
-        ctx.ob("D2.6", fi, sweep, False, "; ".join(problems),
-               construct=f"skyline sweep of {fname}")
-        return
-    iv = scan.target.id
+
+    def names_stored(stmts: list[ast.stmt]) -> list[str]:
+        out: list[str] = []
+        for st_ in stmts:
+            for n in ast.walk(st_):
+                if isinstance(n, ast.Name) and isinstance(
+                        n.ctx, ast.Store) and n.id not in out:
+                    out.append(n.id)
+        return out
     ev = make_evaluator(repo, fi)
     ev.int_transparent = True
     C = repo.module("moptipyapps.binpacking2d.packing")
@@ -557,98 +535,189 @@ def _skyline_sweep(ctx: Ctx, modname: str, fname: str, per_bin: bool) \
         Poly.var("next_left")
     i = Poly.var("i")
     ub = Poly.var("use_bin")
-    # names of the three scan variables: assigned in the scan body
-    assigned = []
-    for s in ast.walk(scan):
-        if isinstance(s, ast.Assign) and isinstance(
-                s.targets[0], ast.Name) and s.targets[0].id not in assigned:
-            assigned.append(s.targets[0].id)
+    zero = Poly.const(0)
+    last_bin = Poly.atom(("colred", "max", "y", Poly.const(IDX["IDX_BIN"])))
+
+    def pre_env(stmts: list[ast.stmt], base: Env) -> Env:
+        e = base.copy()
+        for st_ in stmts:
+            if isinstance(st_, (ast.Assign, ast.AnnAssign, ast.AugAssign)):
+                try:
+                    e = ev.stmt(e, st_)
+                except Unsupported:
+                    for nm in names_stored([st_]):
+                        e.vars.pop(nm, None)
+        return e
+    base = Env()
+    base.vars[yp] = ("array", "y")
+    base.vars[wp] = W
+    scope: list[ast.stmt] = body
+    bin_loop = None
+    env_f = pre_env([s_ for s_ in body if not isinstance(
+        s_, (ast.For, ast.While))], base)
+    if per_bin:
+        bin_loop = next((s_ for s_ in body if isinstance(s_, ast.For)
+                         and any(isinstance(x, ast.While)
+                                 for x in s_.body)), None)
+        if bin_loop is None or not isinstance(bin_loop.target, ast.Name):
+            problems.append("no loop over the bins")
+        else:
+            scope = bin_loop.body
+            it = bin_loop.iter
+            ok_it = isinstance(it, ast.Call) and isinstance(
+                it.func, ast.Name) and it.func.id == "range" and len(
+                it.args) == 2 and not it.keywords
+            if ok_it:
+                try:
+                    e_b = pre_env(body[:body.index(bin_loop)], base)
+                    lo_ = ev.num(e_b, it.args[0])
+                    hi_ = ev.num(e_b, it.args[1])
+                    ok_it = lo_ == Poly.const(1) and hi_ == last_bin + \
+                        Poly.const(1)
+                except Unsupported:
+                    ok_it = False
+            if not ok_it:
+                problems.append("the bins are not enumerated as 1..bins")
+    sweep = next((s_ for s_ in scope if isinstance(s_, ast.While)), None)
+    if sweep is None:
+        ctx.ob("D2.6", fi, fi.node, False, "no sweep loop",
+               construct=construct)
+        return
+    scan = next((s_ for s_ in sweep.body if isinstance(s_, ast.For)), None)
+    pre = scope[:scope.index(sweep)]
+    assigned_sweep = names_stored(sweep.body)
+    # F6: the position: the variable of the loop test that the loop changes
+    tnames = [n.id for n in ast.walk(sweep.test) if isinstance(n, ast.Name)
+              and n.id in assigned_sweep]
+    cn = tnames[0] if len(set(tnames)) == 1 else None
+    if cn is None:
+        problems.append("the sweep does not run while position < bin width")
+    else:
+        e_t = Env()
+        e_t.vars.update({wp: W, cn: c})
+        try:
+            same, _why = equivalent(ev.cond(e_t, sweep.test), ("lt", c, W))
+        except Unsupported:
+            same = False
+        if not same:
+            problems.append("the sweep does not run while position < bin "
+                            "width")
+    ok_scan = scan is not None and isinstance(scan.target, ast.Name) and \
+        src(inline_locals(fi.node, scan.iter)) == f"range(len({yp}))"
+    if not ok_scan:
+        problems.append("the scan does not visit every row of the packing")
+    e_pre = pre_env(pre, env_f if not per_bin else pre_env(
+        body[:body.index(bin_loop)] if bin_loop is not None else [], base))
+    if cn is not None and e_pre.vars.get(cn) != zero:
+        problems.append("the sweep does not start at x = 0")
+    if problems or scan is None or cn is None:
+        ctx.ob("D2.6", fi, sweep, False, "; ".join(problems),
+               construct=construct)
+        return
+    iv = scan.target.id
+    # the bin the scan looks at: the name compared with y[i, IDX_BIN]
+    bin_names = set()
+    for n in ast.walk(scan):
+        if isinstance(n, ast.Compare) and len(n.ops) == 1:
+            sides = [n.left, n.comparators[0]]
+            for a_, b_ in (sides, sides[::-1]):
+                if isinstance(a_, ast.Subscript) and isinstance(
+                        a_.slice, ast.Tuple) and len(
+                        a_.slice.elts) == 2 and repo.const(
+                        fi.module, a_.slice.elts[1]) == IDX["IDX_BIN"] \
+                        and isinstance(b_, ast.Name):
+                    bin_names.add(b_.id)
+    bin_src = next(iter(bin_names)) if len(bin_names) == 1 else None
+    if bin_src is None:
+        problems.append("the scan does not select the rows of one bin")
+    elif per_bin:
+        if bin_loop is None or bin_src != bin_loop.target.id:
+            problems.append("the scanned bin is not the bin of the outer "
+                            "loop")
+    elif e_pre.vars.get(bin_src) != last_bin:
+        problems.append("the swept bin is not the last bin")
+    assigned = [nm for nm in names_stored(scan.body)]
     init_stmts = sweep.body[:sweep.body.index(scan)]
-    env = Env()
-    env.vars[yp] = ("array", "y")
+    env = e_pre.copy()
     env.vars.update({wp: W, cn: c, iv: i})
-    env.vars[bin_src or "use_bin"] = ub
-    if not per_bin:
-        # F0: the bin looked at is the last one
-        ubd = [s for s in pre if isinstance(s, (ast.Assign, ast.AnnAssign))
-               and src(s.targets[0] if isinstance(s, ast.Assign)
-                       else s.target) == "use_bin"]
-        if not ubd or src(ubd[-1].value) not in (
-                f"max({yp}[:,IDX_BIN])", f"int({yp}[:,IDX_BIN].max())",
-                "bins"):
-            problems.append("the swept bin is not the last bin")
+    if bin_src is not None:
+        env.vars[bin_src] = ub
     try:
         e0 = env
-        for s in init_stmts:
-            e0 = ev.stmt(e0, s)
+        for s_ in init_stmts:
+            e0 = ev.stmt(e0, s_)
     except Unsupported as u:
         problems.append(f"cannot normalise the scan initialisation: {u}")
         e0 = None
+    tops = [nm for nm in assigned if e0 is not None
+            and e0.vars.get(nm) == zero]
+    wides = [nm for nm in assigned if e0 is not None
+             and e0.vars.get(nm) == W]
+    if e0 is not None and (len(tops) != 1 or len(wides) != 2):
+        problems.append("the scan does not start from (height 0, right "
+                        "= W, next start = W)")
     roles: dict[str, str] = {}
-    if e0 is not None:
-        zero = Poly.const(0)
-        for nm in assigned:
-            v = e0.vars.get(nm)
-            if v == zero:
-                roles["top"] = nm
-        cand = [nm for nm in assigned if e0.vars.get(nm) == W]
-        # which of the W-initialised variables is the next-left minimum?
-        for nm in cand:
-            for s in ast.walk(scan):
-                if isinstance(s, ast.Assign) and src(s.targets[0]) == nm:
-                    if "LEFT" in src(s.value) or src(s.value) == "left":
-                        roles["next"] = nm
-                    else:
-                        roles["right"] = nm
-        if set(roles) != {"top", "right", "next"}:
-            problems.append("the scan does not start from (height 0, right "
-                            "= W, next start = W)")
     if not problems:
-        env2 = e0.copy()
-        env2.vars[roles["top"]] = ut
-        env2.vars[roles["right"]] = ur
-        env2.vars[roles["next"]] = nl
-        try:
-            out = ev.block(env2, scan.body)
-        except Unsupported as u:
-            out = None
-            problems.append(f"cannot normalise the scan step: {u}")
-        if out is not None:
-            def cell(col: str) -> Poly:
-                return Poly.atom(("cell", "y", (i, Poly.const(IDX[col]))))
-            b, l, r, tp = (cell(k) for k in ("IDX_BIN", "IDX_LEFT_X",
-                                             "IDX_RIGHT_X", "IDX_TOP_Y"))
-            in_bin = ("eq", *sorted((b, ub), key=lambda p: repr(p.key())))
-            covers = ("and", ("le", l, c), ("lt", c, r), ("lt", ut, tp))
-            ref_t = ite(in_bin, ite(covers, tp, ut), ut)
-            ref_r = ite(in_bin, ite(covers, r, ur), ur)
-            ref_n = ite(in_bin, ite(("and", ("lt", c, l), ("lt", l, nl)),
-                                    l, nl), nl)
-            sp = Splitter()
-            for what, g, rf in (
-                    ("the running maximum height", out.vars.get(
-                        roles["top"]), ref_t),
-                    ("the right edge of the highest covering item",
-                     out.vars.get(roles["right"]), ref_r),
-                    ("the next start of an item", out.vars.get(
-                        roles["next"]), ref_n)):
-                try:
-                    for facts, (a_, b_), trail in sp.cases((g, rf)):
-                        if not sp.equal(a_, b_, facts):
-                            problems.append(
-                                f"[{describe(trail)[:200]}] {what} becomes "
-                                f"{show(a_)[:80]}, the sweep needs "
-                                f"{show(b_)[:80]}")
-                            break
-                except Unsupported as u:
-                    problems.append(f"{what}: {u}")
-            ctx.count("sweep_step_cases", sp.n_cases)
+        def cell(col: str) -> Poly:
+            return Poly.atom(("cell", "y", (i, Poly.const(IDX[col]))))
+        b, l, r, tp = (cell(k) for k in ("IDX_BIN", "IDX_LEFT_X",
+                                         "IDX_RIGHT_X", "IDX_TOP_Y"))
+        in_bin = ("eq", *sorted((b, ub), key=lambda p: repr(p.key())))
+        covers = ("and", ("le", l, c), ("lt", c, r), ("lt", ut, tp))
+        ref_t = ite(in_bin, ite(covers, tp, ut), ut)
+        ref_r = ite(in_bin, ite(covers, r, ur), ur)
+        ref_n = ite(in_bin, ite(("and", ("lt", c, l), ("lt", l, nl)),
+                                l, nl), nl)
+        best: list[str] | None = None
+        n_cases = 0
+        for rn, nn in (wides, wides[::-1]):
+            trial = {"top": tops[0], "right": rn, "next": nn}
+            tp_: list[str] = []
+            env2 = e0.copy()
+            env2.vars[trial["top"]] = ut
+            env2.vars[trial["right"]] = ur
+            env2.vars[trial["next"]] = nl
+            try:
+                out = ev.block(env2, scan.body)
+            except Unsupported as u:
+                tp_.append(f"cannot normalise the scan step: {u}")
+                out = None
+            if out is not None:
+                sp = Splitter()
+                for what, g, rf in (
+                        ("the running maximum height", out.vars.get(
+                            trial["top"]), ref_t),
+                        ("the right edge of the highest covering item",
+                         out.vars.get(trial["right"]), ref_r),
+                        ("the next start of an item", out.vars.get(
+                            trial["next"]), ref_n)):
+                    try:
+                        for facts, (a_, b_), trail in sp.cases((g, rf)):
+                            if not sp.equal(a_, b_, facts):
+                                tp_.append(
+                                    f"[{describe(trail)[:200]}] {what} "
+                                    f"becomes {show(a_)[:80]}, the sweep "
+                                    f"needs {show(b_)[:80]}")
+                                break
+                    except Unsupported as u:
+                        tp_.append(f"{what}: {u}")
+                n_cases = max(n_cases, sp.n_cases)
+            if not tp_:
+                roles = trial
+                best = []
+                break
+            if best is None or len(tp_) < len(best):
+                best = tp_
+                roles = trial
+        ctx.count("sweep_step_cases", n_cases)
+        problems += best or []
         # F3-F5 after the scan
         post = sweep.body[sweep.body.index(scan) + 1:]
         env3 = e0.copy()
         A = Poly.var("A")
-        acc = next((s.target.id for s in post if isinstance(
-            s, ast.AugAssign) and isinstance(s.target, ast.Name)), None)
+        carried = [nm for nm in names_stored(post) if nm != cn
+                   and nm not in roles.values() and nm in e_pre.vars]
+        acc = carried[0] if len(carried) == 1 else None
         env3.vars.update({roles["top"]: ut, roles["right"]: ur,
                           roles["next"]: nl})
         if acc is None:
@@ -656,34 +725,35 @@ def _skyline_sweep(ctx: Ctx, modname: str, fname: str, per_bin: bool) \
         else:
             env3.vars[acc] = A
             try:
-                for s in post:
-                    env3 = ev.stmt(env3, s)
-                e_ = Poly.atom(("app", "min", tuple(sorted(
-                    (ur, nl), key=repr))))
+                for s_ in post:
+                    env3 = ev.stmt(env3, s_)
+                e_ = ite(("lt", ur, nl), ur, nl)
                 gotA, gotc = env3.vars.get(acc), env3.vars.get(cn)
 
-                def canon(p: Any) -> Any:
+                def unmin(p: Any) -> Any:
                     if not isinstance(p, Poly):
                         return p
                     sub = {}
-                    for a in p.atoms():
-                        if a[0] == "app" and a[1] == "min":
-                            sub[a] = Poly.atom(("app", "min", tuple(
-                                sorted(a[2], key=repr))))
+                    for a_ in p.atoms():
+                        if a_[0] == "app" and a_[1] == "min" and len(
+                                a_[2]) == 2:
+                            x_, y_ = a_[2]
+                            sub[a_] = ite(("lt", x_, y_), x_, y_)
                     return p.subst(sub) if sub else p
-                if canon(gotA) != A + (e_ - c) * ut:
+                okA, whyA = equivalent(unmin(gotA), A + (e_ - c) * ut) \
+                    if isinstance(gotA, Poly) else (False, "not a number")
+                if not okA:
                     problems.append(
-                        f"a segment adds {show(canon(gotA) - A)[:100]}, not "
-                        "(min(use_right, next_left) - position) * height")
-                if canon(gotc) != e_:
+                        f"a segment does not add (min(use_right, next_left)"
+                        f" - position) * height: {whyA[:160]}")
+                okc, _w = equivalent(unmin(gotc), e_) if isinstance(
+                    gotc, Poly) else (False, "")
+                if not okc:
                     problems.append("the sweep does not continue at "
                                     "min(use_right, next_left)")
             except Unsupported as u:
                 problems.append(f"cannot normalise the segment update: {u}")
-            a0 = [s for s in pre if isinstance(s, (ast.Assign, ast.AnnAssign))
-                  and src(s.targets[0] if isinstance(s, ast.Assign)
-                          else s.target) == acc]
-            if not a0 or repo.const(fi.module, a0[-1].value) != 0:
+            if e_pre.vars.get(acc) != zero:
                 problems.append("the area does not start at 0")
     ctx.ob("D2.6", fi, sweep, not problems,
            f"{fname}: the sweep adds, segment by segment, (segment length) "
@@ -691,4 +761,7 @@ def _skyline_sweep(ctx: Ctx, modname: str, fname: str, per_bin: bool) \
            "step, segment end, accumulation and continuation agree with "
            "the skyline definition on every outcome of their comparisons"
            if not problems else "; ".join(dict.fromkeys(problems)),
-           construct=f"skyline sweep of {fname}")
+           construct=construct)
+    del hp
+
+
